@@ -1,4 +1,5 @@
 """C10 — script expressions: streams."""
+import re
 from ..core import Stream, hx, unhx
 
 RULE = ("expr: random well-typed expression trees (depth <= 7; + - * / %, unary minus, parentheses, the 8 comparison spellings, & |, decimal/$hex/0x/0o "
@@ -214,6 +215,13 @@ def streams(tier, rng, P, only=None, cases=None):
             else:
                 arr = [rng.randint(0, 99) for _ in range(rng.randrange(1, 9))]
                 src = "ARRAY A=(%s) PRINT(SizeOf(A))" % ",".join(map(str, arr)); mreq = "expr I%d" % len(arr)
+            if k in ("mid", "replace", "chr", "sizeof") and rng.random() < 0.2:
+                # the argument list of a call may be laid out over several lines (a line break after `(`, after a comma, before `)`)
+                src = re.sub(r"\},(?=[\d{])", lambda mo: "}," + rng.choice(["\n", "\n  ", " \n"]), src)
+                src = re.sub(r"(\d),(?=\d)", lambda mo: mo.group(1) + "," + rng.choice(["\n", "\n\t"]), src)
+                if rng.random() < 0.5: src = src.replace("CHR(", "CHR(\n").replace("SizeOf(", "SizeOf(\n")
+            elif k == "array" and src.startswith("ARRAY") and "IX" not in src and rng.random() < 0.2:
+                src = re.sub(r"\((\d+)\)\)$", lambda mo: "(\n%s))" % mo.group(1), src)
             cs.append(dict(req="run " + hx(src), src=src, show=src, mreq=mreq, kind=k, key="b%d" % i))
         for j, (src, mreq) in enumerate([("PRINT(MID({abc},10,2))", "builtin mid 616263 10 2"), ("PRINT(SizeOf({é€}))", "builtin sizeof " + hx("é€")), ("PRINT(MID({é€x},2,1))", "builtin mid %s 2 1" % hx("é€x"))]):
             cs.append(dict(req="run " + hx(src), src=src, show=src, mreq=mreq, kind="fixed", key="bf%d" % j))
